@@ -12,7 +12,7 @@ import time
 import traceback
 
 from vlib import common
-from .ctx import Ctx
+from .ctx import ASSUMPTION_TEXT, Ctx
 
 GROUPS = ["identity", "lexer_eq", "parser_eq", "codegen_sim", "precedence", "literals", "dominance", "layout", "canon_lex"]
 # which groups serve which property (used when --groups is not given)
@@ -53,8 +53,9 @@ def main(argv=None):
             obs = mod.run(ctx)
             doc["obligations"] += obs
             for a in getattr(mod, "ASSUMPTIONS", []):
-                if a not in doc["assumptions"]:
-                    doc["assumptions"].append(a)
+                text = "%s: %s" % (a, ASSUMPTION_TEXT[a])
+                if text not in doc["assumptions"]:
+                    doc["assumptions"].append(text)
             for a in getattr(mod, "TRUSTED", []):
                 if a not in doc["trusted"]:
                     doc["trusted"].append(a)
